@@ -101,7 +101,7 @@ def validate_chunk(ctx, idx, cases, tag):
     d = ctx.subdir("chunk_%s_%d" % (tag, idx))
     while cases:
         rounds += 1
-        if rounds > 6:      # plenty of rejected cases already: leave the rest of this chunk unvalidated
+        if rounds > 4:      # plenty of rejected cases already: leave the rest of this chunk unvalidated
             break
         rows = [r for c in cases for r in c]
         path = os.path.join(d, "t%d.ndjson" % rounds)
@@ -450,7 +450,7 @@ def run(ctx, prop):
         selfcheck = [{"skipped_or_failed": str(e)[:300]}]
 
     samples = []
-    for c in ok_cases[:3]:
+    for c in (ok_cases or all_cases)[:3]:
         samples.append({"case": c[0]["case"], "mode": c[0].get("mode"), "ops": short_ops(ops_of(c), 10),
                         "final": {"changes": [(x["id"], x["status"]) for x in c[-1]["st"].get("changes", [])],
                                   "taskCount": c[-1]["st"].get("taskCount"), "ctr": c[-1]["st"].get("ctr")}})
